@@ -159,7 +159,7 @@ Qed.
 Theorem C18_to_dot_empty_roots s : Inv s → to_dot (Some []) s = (Err EAssert, s).
 Proof. exact (to_dot_empty s). Qed.
 
-(** ** Non-vacuity.  Three variables; node 8 is (v0 xor v1) \/ ~v2 with a
+(** ** Non-vacuity.  Three variables; node 8 is (v0 <-> v1) \/ ~v2 with a
     complemented low edge (8 = (0, -6, 7)); the root is the complemented
     reference -8. *)
 Definition ex_world : world2 :=
@@ -178,13 +178,13 @@ Definition assignments3 : list (nat → bool) :=
 Example C18_nonvacuous_views :
   let s := world2_get ex_world 0 in
   succ s !! 8%positive = Some (Triple 0 (-6) 7) ∧ mem (-8) s = true ∧
-  (* descendants: 2, 3, 5 (v0, v1, v0 xor v1) are not below 8 *)
+  (* descendants: 2, 3, 5 (v0, v1, v0 <-> v1) are not below 8 *)
   snd (step2 ex_world 0 (ODescendants [(-8)%Z]))
     = Ok (VL [VZ 1; VZ 4; VZ 8; VZ 6; VZ 7]) ∧
   snd (step2 ex_world 0 (ODescendants [])) = Ok (VL []) ∧
   (* the exported graphs, evaluated on the 8 assignments, agree with the
      denotation of the root; the truth table is that of
-     ~((v0 xor v1) \/ ~v2) *)
+     (v0 xor v1) /\ v2 *)
   match to_nx [(-8)%Z] s, to_dot (Some [(-8)%Z; 3%Z]) s, to_dot None s with
   | (Ok g, _), (Ok h, _), (Ok k, _) =>
       length (x_nodes g) = 5 ∧ length (x_edges g) = 8 ∧
